@@ -135,12 +135,43 @@ def judge(res, node, cfg, origin):
                 res.sample({'model': M.text(node) + K.cfg_text(cfg), 'version': version, 'reference': ref, 'built': accepted})
             continue
         direction = 'missed' if accepted else 'false-alarm'
-        mnode, mcfg, _ = K.shrink(node, cfg, (), lambda n2, c2, ws: () if still(n2, c2, version, direction, ref) else None)
+        # Is the wrong verdict the one the pinned pairwise-path procedure gives (a listed weakness), or does the tree
+        # decide differently from it (something new)? The shrinker keeps that answer fixed, otherwise a new miss drifts
+        # to a smaller model that shows a listed one.
+        same0 = same_as_pinned(node, cfg, version, accepted)
+        res.count(f'{version}:wrong_verdict:' + {True: 'same_as_pinned_procedure', False: 'differs_from_pinned_procedure', None: 'pinned_procedure_not_run'}[same0])
+        mnode, mcfg, _ = K.shrink(node, cfg, (), lambda n2, c2, ws: () if still(n2, c2, version, direction, ref) and
+                                  same_as_pinned(M.to_tuple(n2), c2, version, accepted) == same0 else None)
         mref, mwhy = ref_verdict(mnode, mcfg, version)
         mech = classify(mnode, mcfg, version, direction, mref)
+        if same0 is False:
+            head, sep, tail = mech.partition(': ')
+            mech = head + ':not-the-verdict-of-the-pinned-procedure' + sep + tail
         res.violation(mech, {'node': mnode, 'cfg': mcfg, 'version': version, 'direction': direction},
                       f'{direction} ({version}): reference says {mref} for {M.text(mnode)}{K.cfg_text(mcfg)} '
                       f'[{str(mwhy)[:120]}] (from {origin}: {M.text(node)}{K.cfg_text(cfg)})')
+
+
+_lax_cache = {}
+
+
+def same_as_pinned(node, cfg, version, accepted):
+    """Does the frozen copy of the pinned check_model (vk/ref/pinned_upa.py), run on the live components, give the
+    verdict the tree gave? None when it cannot be run."""
+    from vk.ref import pinned_upa
+    key = (version, M.render_schema(node, cfg, None))
+    if key not in _lax_cache:
+        if len(_lax_cache) > 300:
+            _lax_cache.clear()
+        try:
+            _lax_cache[key] = K.schema_class(version)(key[1], validation='lax')
+        except Exception:
+            _lax_cache[key] = None
+    schema = _lax_cache[key]
+    if schema is None or 'T' not in schema.types or not hasattr(schema.types['T'].content, 'iter_elements'):
+        return None
+    verdict = pinned_upa.pinned_accepts(schema.types['T'].content)
+    return None if verdict is None else verdict == accepted
 
 
 def still(node, cfg, version, direction, ref0):
